@@ -39,6 +39,7 @@ type Gen struct {
 	extH        map[string]uint64
 	pair        [2]string // (event type, mutated field) of the hash pair being emitted
 	genesisMode bool
+	holderPair  bool // oracle profile: this history pits a holders list against look-alike lists
 	mxProfile   bool // mloop profile (funding happens before the Minter side is started)
 	lastSendTag string
 	orchFromVals bool
@@ -1106,6 +1107,11 @@ func (g *Gen) runOracle(nops int) {
 		{"aa=2000000000000000000"},
 		{"cc=5", "AA=7"},
 		{"aa=1", "AA=2"},
+		// free-form address strings: two different lists whose entries read the same once joined with separators
+		{"aa=5", "bb=7"},
+		{"x" + hex.EncodeToString([]byte("aa:5,bb")) + "=7"},
+		{"x" + hex.EncodeToString([]byte(`aa","value":"5"},{"address":"bb`)) + "=7"},
+		{"x" + hex.EncodeToString([]byte("aa=5 bb")) + "=7"},
 	}
 	for i := 0; i < nops; i++ {
 		epoch := g.env.ok.GetCurrentEpoch(g.env.ctx)
@@ -1125,9 +1131,12 @@ func (g *Gen) runOracle(nops int) {
 				}
 			}
 			var items []string
-			for _, n := range names {
+			for ni, n := range names {
 				if r.Intn(25) == 0 {
 					continue // missing required price
+				}
+				if ni >= len(names)-1 && len(names) > 3 && r.Intn(2) == 0 {
+					continue // the last name is reported by part of the validators only
 				}
 				val := new(big.Int).Mul(big.NewInt(int64(1+r.Intn(50))), new(big.Int).Exp(big.NewInt(10), big.NewInt(int64(15+r.Intn(4))), nil))
 				if r.Intn(40) == 0 {
@@ -1144,6 +1153,13 @@ func (g *Gen) runOracle(nops int) {
 			hl := holderLists[r.Intn(len(holderLists))]
 			if r.Intn(3) == 0 {
 				hl = holderLists[0]
+			}
+			if g.holderPair || r.Intn(12) == 0 {
+				g.holderPair = true // this history: a genuine list and look-alikes compete
+				hl = holderLists[6+r.Intn(2)]
+				if r.Intn(6) == 0 {
+					hl = holderLists[8+r.Intn(2)]
+				}
 			}
 			g.do(fmt.Sprintf("oholders %s %d %s", v, epoch, strings.Join(hl, ",")))
 		case x < 72:
